@@ -13,6 +13,7 @@ struct PG {
 	int al(int h);
 	void value_ops(int n);
 	void mutate_ops(int n, const gen::Pool& pool);
+	int derived(int a, const mdl::TA& A, const gen::Pool& pool);   // a handle that is the RESULT of an operation on a (and a second, freshly loaded automaton)
 };
 std::vector<Step> foreign_program(Rng& r, int client, const gen::Pool& pool, int len);
 std::vector<Step> fa_history_program(Rng& r, int c, int ncl, int len);
